@@ -13,6 +13,7 @@ import PhyVerif.Driver.C11
 import PhyVerif.Driver.C09
 import PhyVerif.Driver.C08
 import PhyVerif.Driver.C05
+import PhyVerif.Driver.C18
 open Lean PhyVerif.Driver
 
 partial def dispatch (j : Json) : R Json := do
@@ -38,6 +39,7 @@ partial def dispatch (j : Json) : R Json := do
   | "C09" => runC09 op j
   | "C08" => runC08 op j
   | "C05" => runC05 op j
+  | "C18" => runC18 op j
   | _ => .error s!"unknown property {p}"
 
 def handle (line : String) : String :=
